@@ -20,7 +20,8 @@ func init() {
 		Level: "exploration",
 		Rule: "case = generated sub-distributor configuration accepted by Params.Validate() (1-6+ sub-distributors, 1-3 sources of MAIN/module/base/internal, 0-4 shares + burn share, chains of internal accounts, aliasing ids, a locked-coin source, a blocked destination) " +
 			"x 8-30 blocks of multi-denomination inflows, with 0-3 governance updates (all four update messages) in between. The distributor's real BeginBlocker runs on the app's stores; after every block remains>=0, sum integer, sum==main balance, supply delta == -burn events, no foreign account touched; module invariants re-run. " +
-			"Non-trivial: (>=2 sources in one sub-distributor or >=2 chained sub-distributors) and >=2 denominations and non-zero remains after some block. Distinct by configuration+inflow hash.",
+			"Non-trivial: (>=2 sources in one sub-distributor or >=2 chained sub-distributors) and >=2 denominations and non-zero remains after some block. Distinct by configuration+inflow hash." +
+			" An eighth of the scenarios start with a base account planted on the address of an unused collector module account: paying it is a refused transfer and the coins stay booked.",
 		Assumptions:   []string{"module accounts owned by other modules' bookkeeping (staking pools, distribution, gov, transfer, cfevesting, cfeminter) are not used as sources/destinations"},
 		Cases:         func(t string) int { return tierN(t, 960, 30000) },
 		MinNontrivial: func(t string) int { return tierN(t, 180, 5000) },
@@ -30,7 +31,8 @@ func init() {
 		ID:    "C04",
 		Level: "exploration",
 		Rule: "same executions as C03; oracle = exact big.Rat model of the documented flow keyed by (type,id), fed only the real pre-block balances; after every block per destination |gross receipts (bank transfer/burn events out of the main account) + recorded remains - model| <= 1 base unit; " +
-			"plus metamorphic twin: the same configuration with every source list permuted must give identical receipts and states. Non-trivial: >=1 share/primary to MAIN or an internal account, >=1 burn share>0, >=3 destinations, cumulative inflow>1000. Distinct by configuration+inflow hash.",
+			"plus metamorphic twin: the same configuration with every source list permuted must give identical receipts and states. Non-trivial: >=1 share/primary to MAIN or an internal account, >=1 burn share>0, >=3 destinations, cumulative inflow>1000. Distinct by configuration+inflow hash." +
+			" Every 16th case runs C14's fault-injection scenario and keeps the share verdicts under injected transfer failures.",
 		Assumptions:   []string{"the model (model/distributor.go) is the documented flow: MAIN inflow = main balance not owed to anybody, module/base sources swept whole plus their own re-queued remains, shares of inflow, primary gets the remainder, integer payouts at block end"},
 		Cases:         func(t string) int { return tierN(t, 960, 30000) },
 		MinNontrivial: func(t string) int { return tierN(t, 120, 4000) },
